@@ -378,6 +378,8 @@ pub struct ProcModel {
     /// entering local state 2 requires the shared flag to be clear and sets it; leaving clears it
     pub flag: bool,
     pub props: Vec<(Expectation, u8)>,
+    /// initial local-state vectors (not necessarily sorted: an initial state need not be its own representative)
+    pub inits: Vec<Vec<u8>>,
 }
 pub type PMState = (Vec<u8>, bool);
 
@@ -410,7 +412,7 @@ impl Model for ProcModel {
     type State = PMState;
     type Action = (u8, u8);
     fn init_states(&self) -> Vec<PMState> {
-        vec![(vec![0; self.k], false)]
+        self.inits.iter().map(|v| (v.clone(), false)).collect()
     }
     fn actions(&self, s: &PMState, out: &mut Vec<(u8, u8)>) {
         for i in 0..self.k {
@@ -471,8 +473,16 @@ fn part_d(a: &Args, shared: &SharedReport, th: bool) {
                 }
                 let props = vec![(Expectation::Always, 0u8), (Expectation::Sometimes, 1), (Expectation::Always, 3), (Expectation::Sometimes, 4)];
                 let props2 = vec![(Expectation::Sometimes, 2u8), (Expectation::Always, 5), (Expectation::Always, 6)];
-                for pr in [props, props2] {
-                    let m = ProcModel { k, rel, flag, props: pr };
+                let init_sets: Vec<Vec<Vec<u8>>> = if k == 2 {
+                    vec![vec![vec![0, 0]], vec![vec![1, 0]], vec![vec![2, 1]], vec![vec![1, 0], vec![0, 2]]]
+                } else {
+                    vec![vec![vec![0, 0, 0]], vec![vec![1, 0, 0]], vec![vec![2, 0, 1]], vec![vec![0, 1, 0], vec![1, 1, 0]]]
+                };
+                for (pr, inits) in [props, props2].into_iter().flat_map(|p| init_sets.iter().map(move |i| (p.clone(), i.clone()))) {
+                    if !th && k == 3 && inits[0] != vec![0, 0, 0] && relcode % 8 != 2 {
+                        continue;
+                    }
+                    let m = ProcModel { k, rel, flag, props: pr, inits };
                     // oracle: reachable set and orbits by plain search
                     let mut seen: BTreeSet<PMState> = BTreeSet::new();
                     let mut stack = m.init_states();
@@ -510,7 +520,7 @@ fn part_d(a: &Args, shared: &SharedReport, th: bool) {
                         let visited = vis.lock().unwrap().clone();
                         (c.unique_state_count(), disc, visited)
                     };
-                    let rv = json!({"engine": "c10d", "k": k, "rel": relcode, "flag": flag, "props": format!("{:?}", m.props)});
+                    let rv = json!({"engine": "c10d", "k": k, "rel": relcode, "flag": flag, "props": format!("{:?}", m.props), "inits": m.inits});
                     begin_case(shared, "c10d", rv.clone(), "machinery:hang");
                     let (u_plain, d_plain, _) = run(false);
                     let (u_sym, d_sym, vis_sym) = run(true);
